@@ -30,6 +30,8 @@ def demo_setup():
             names += re.findall(r"([A-Za-z0-9_./-]+[.]cpp)", line)
     target = None
     for nm in names:
+        if "_seeded" in nm or nm.startswith("/") or nm.startswith("$"):
+            continue  # the demo is compiled in place from _seeded/<n>/
         path = os.path.join(wt, "test", nm)
         if not os.path.exists(path):
             shutil.copy(os.path.join(sd, "demo.cpp"), path)
